@@ -298,6 +298,7 @@ pub fn c15(tier: Tier) -> i32 {
     let mut distinct: BTreeSet<String> = BTreeSet::new();
     let mut outcomes: BTreeSet<String> = BTreeSet::new();
     let mut samples = Vec::new();
+    let mut slow_retries = 0u64;
     for (si, (sname, cfg, seed, down)) in states.iter().enumerate() {
         let served = serve(*cfg, seed);
         if *down {
@@ -308,7 +309,16 @@ pub fn c15(tier: Tier) -> i32 {
         let cases: Vec<&Case> = if si == 0 || tier == Tier::Thorough { all.iter().collect() } else { all.iter().filter(|c| c.valid.is_some() || c.desc.contains("dropped") || c.desc.contains("odd-hex") || c.desc.contains("raw")).collect() };
         for c in cases {
             let before = state_of(&served.world);
-            let r = send(served.front.http, &c.req, Duration::from_secs(3));
+            let mut r = send(served.front.http, &c.req, Duration::from_secs(3));
+            if r.as_ref().map_or(true, |r| r.elapsed > Duration::from_secs(2)) {
+                // real time: on a loaded machine a late answer proves nothing; a request the front end
+                // really sits on is not answered the second time either
+                let r2 = send(served.front.http, &c.req, Duration::from_secs(10));
+                if r2.as_ref().map_or(false, |r2| r2.elapsed <= Duration::from_secs(2)) {
+                    slow_retries += 1;
+                    r = r2;
+                }
+            }
             let after = state_of(&served.world);
             evals += 1;
             distinct.insert(format!("{}|{}|{}", c.req.method, c.req.path, crate::tower::fnv(&c.req.body)));
@@ -347,6 +357,7 @@ pub fn c15(tier: Tier) -> i32 {
         }
     }
     run.set("evaluations", json!(evals));
+    run.set("late_answers_asked_again_and_answered_in_time", json!(slow_retries));
     run.set("distinct_nontrivial", json!(distinct.len()));
     run.set("distinct_reply_kinds", json!(outcomes.len()));
     run.set("exhaustive", json!(true));
